@@ -507,12 +507,14 @@ class World:
         sh('echo %s > %s; git add %s; git commit -q -m "%s"' %
            (content or fname, fname, fname, fname), cwd)
 
-    def open_pr(self, src, dst, user=CONTRIB, file=None, title=None, base=None):
+    def open_pr(self, src, dst, user=CONTRIB, file=None, title=None, base=None, existing=False):
+        """existing=True: a second pull request from a source branch that is already on the remote (a backport)."""
         u = self.user
         sh('git fetch -q --prune origin', u)
-        sh('git checkout -q -B %s origin/%s' % (src, base or dst), u)
-        self._commit(u, file or self._fname(src), content=self._fname('c') if file else None)
-        sh('git push -q origin %s' % src, u)
+        if not existing:
+            sh('git checkout -q -B %s origin/%s' % (src, base or dst), u)
+            self._commit(u, file or self._fname(src), content=self._fname('c') if file else None)
+            sh('git push -q origin %s' % src, u)
         pr = self.hosts[user].create_pull_request(
             title=title or ('title ' + src), name='name', src_branch=src, dst_branch=dst,
             description='descr')
